@@ -193,6 +193,12 @@ int Session::start_debug(unsigned flush_interval) {
 	return r;
 }
 
+int Session::start_debug_keep_mode(unsigned flush_interval) {
+	int r = bidib_start_pointer(read_cb, write_cb, NULL, flush_interval);
+	running = (r == 0);
+	return r;
+}
+
 int Session::start_files(const char *board, const char *track, const char *train, unsigned fi) {
 	vf_clear_files();
 	vf_set_file("/vf/cfg/bidib_board_config.yml", board, board ? strlen(board) : 0);
